@@ -56,9 +56,9 @@ BOUND = {
              "to depth 4; per member 12 simple derives + map (identity / rebuilding callback), group_by, aggregate (plain / with a summary function that edits its group) and full_join - methods the statement does not name, whose relation to the receiver is observed - + sample(1|2) x every RNG answer + semi/anti join x every "
              "other member and a literal as right-hand list; 9 edits + inner/left join x the same right-hand "
              "lists; deepcopy; 8 kinds of plain use (pluck, to_string, to_json, to_data_frame, write_csv, write_json, repr, a sort by a key no item has)",
-    "thorough": "same event alphabet; families of <= 5 lists; all event sequences to depth 6",
+    "thorough": "same event alphabet (after histories of 4 and more events only 2 of the 8 kinds of plain use: pluck, to_string); families of <= 5 lists; all event sequences to depth 6",
 }
-TIME_CAP = {"quick": 300, "thorough": 5400}
+TIME_CAP = {"quick": 300, "thorough": 4800}
 EXPLANATION = ("counters: states_new = per-shard distinct states; states_with_obsolete = of those, states with "
                ">= 1 obsolete member; warnings_observed = warning lines seen on checked transitions; shape:* = one "
                "counter per distinct derivation shape (parent-pointer tuple)")
@@ -214,6 +214,8 @@ SIMPLE_D = ("filter_fn", "filter_kv", "sort", "unique", "head", "head0", "tail",
 SIMPLE_E = ("modify", "modify_if", "modify_if_nested", "rename", "select", "unselect", "fill", "fill_kv")
 MAPS = ("map_identity", "map_tag", "group_by", "aggregate", "aggregate_editing", "deepcopy_std", "full_join_lit", "full_join_empty", "mul2", "rmul1", "add_self")
 USES = ("pluck", "to_string", "to_json", "to_data_frame", "write_csv", "write_json", "repr", "sort_absent_key")
+USES_DEEP = ("pluck", "to_string")   # the kinds of use tried after histories of 4 and more events (thorough tier)
+USES_ALL_BELOW = 4
 # which method of the statement each op instantiates (for the reference model and reports)
 METHOD = {"copy_std": "copy", "filter_fn": "filter", "filter_kv": "filter", "modify_if_nested": "modify_if",
           "chain_filter_sort": "sort", "chain_slice_reverse": "reverse", "head0": "head",
@@ -478,10 +480,10 @@ def replay(hist):
 # ---------------------------------------------------------------------------
 # enabled events
 
-def events_for(model, kmax):
+def events_for(model, kmax, level=0):
     """(enabled events, number of events disabled by the family-size cap or as unspecified)."""
     m = len(model.members)
-    evs = [("U", i, how) for i in range(m) for how in USES]
+    evs = [("U", i, how) for i in range(m) for how in (USES if level < USES_ALL_BELOW else USES_DEEP)]
     creating = []
     unspecified = 0
     for i in range(m):
@@ -551,7 +553,7 @@ def expand(hist, kmax, rec):
     key = state_key(w)
     rec.state(key)
     hk = hash(key)
-    evs, disabled = events_for(w.model, kmax)
+    evs, disabled = events_for(w.model, kmax, len(hist))
     rec.pruned += disabled
     nontrivial = w.model.n_obsolete() > 0
     out = []
